@@ -158,6 +158,12 @@ EDITS = {
         ("rn07", "crates/lib/mimium-lang/src/compiler/mirgen/convert_qualified_names.rs", "    if ctx.is_locally_bound(name) {\n        return Expr::Var(name).into_id(loc);\n    }\n", "", "verus", "resolve_names"),
         ("rn08", "crates/lib/mimium-lang/src/compiler/mirgen/convert_qualified_names.rs", "        if !is_public && !ctx.is_within_module_hierarchy(&target_path) {", "        if !is_public && ctx.is_within_module_hierarchy(&target_path) {", "verus", "resolve_names"),
         ("rn09", "crates/lib/mimium-lang/src/ast/program.rs", "        if exists(&relative_mangled) {\n            return (relative_mangled, relative_path);", "        if exists(&relative_mangled) {\n            return (relative_mangled, path_segments.to_vec());", "verus", "resolve_names"),
+        ("rw01", "crates/lib/mimium-lang/src/compiler/mirgen/convert_qualified_names.rs", "            let new_body = convert_expr(ctx, body);\n            // The module context of a module-level `let` applies to its own right-hand side only:\n            // restore the enclosing context before converting the rest of the chain.\n            ctx.current_module_context = prev_context;\n            let new_then = then.map(|t| {\n                ctx.push_scope();\n                ctx.bind_pattern_locals(&pat.pat);\n                let converted = convert_expr(ctx, t);\n                ctx.pop_scope();\n                converted\n            });\n",
+         "            let new_body = convert_expr(ctx, body);\n            let new_then = then.map(|t| {\n                ctx.push_scope();\n                ctx.bind_pattern_locals(&pat.pat);\n                let converted = convert_expr(ctx, t);\n                ctx.pop_scope();\n                converted\n            });\n            ctx.current_module_context = prev_context;\n", "verus", "resolve_walk"),
+        ("rw02", "crates/lib/mimium-lang/src/compiler/mirgen/convert_qualified_names.rs", "                ctx.push_scope();\n                ctx.bind_pattern_locals(&pat.pat);\n                let converted = convert_expr(ctx, t);", "                ctx.push_scope();\n                let converted = convert_expr(ctx, t);", "verus", "resolve_walk"),
+        ("rw03", "crates/lib/mimium-lang/src/compiler/mirgen/convert_qualified_names.rs", "            for param in &params {\n                ctx.bind_local(param.id);\n            }\n            let new_body = convert_expr(ctx, body);\n            ctx.pop_scope();", "            let new_body = convert_expr(ctx, body);\n            ctx.pop_scope();", "verus", "resolve_walk"),
+        ("rw04", "crates/lib/mimium-lang/src/compiler/mirgen/convert_qualified_names.rs", "            let new_then = then.map(|t| convert_expr(ctx, t));\n            ctx.pop_scope();\n            Expr::LetRec(id, new_body, new_then).into_id(loc)", "            ctx.pop_scope();\n            let new_then = then.map(|t| convert_expr(ctx, t));\n            Expr::LetRec(id, new_body, new_then).into_id(loc)", "verus", "resolve_walk"),
+        ("rw05", "crates/lib/mimium-lang/src/compiler/mirgen/convert_qualified_names.rs", "            if let Some(new_context) = ctx.module_info.module_context_map.get(&name) {\n                ctx.current_module_context = new_context.clone();\n            }\n\n            let new_body = convert_expr(ctx, body);\n\n            // Restore context\n            ctx.current_module_context = prev_context;", "            if let Some(new_context) = ctx.module_info.module_context_map.get(&name) {\n                ctx.current_module_context = new_context.clone();\n            }\n\n            let new_body = convert_expr(ctx, body);", "verus", "resolve_walk"),
         ("ut01", "crates/lib/mimium-lang/src/ast/program.rs", "        if *visibility == Visibility::Public {\n            let exported_name", "        if *visibility != Visibility::Public {\n            let exported_name", "verus", "use_tables"),
         ("ut02", "crates/lib/mimium-lang/src/ast/program.rs", "            module_info.visibility_map.insert(exported_name, true);", "            module_info.visibility_map.insert(exported_name, true);\n            module_info.visibility_map.insert(mangled, true);", "verus", "use_tables"),
         ("ut03", "crates/lib/mimium-lang/src/ast/program.rs", "        module_info.use_alias_map.insert(alias_name, mangled);\n\n", "        module_info.use_alias_map.insert(mangled, alias_name);\n\n", "verus", "use_tables"),
